@@ -34,7 +34,7 @@ class _LazyImplies(ast.NodeTransformer):
 def _vocab():
     return {
         k: getattr(spec, k)
-        for k in ("contract", "lemma", "invariant", "requires", "ensures", "raises", "pure", "modifies", "old", "hint", "implies", "Skip")
+        for k in ("contract", "lemma", "invariant", "requires", "ensures", "raises", "may_raise", "pure", "modifies", "old", "hint", "implies", "Skip")
     }
 
 
@@ -44,6 +44,8 @@ def load(files=None):
     if _loaded:
         return
     _loaded = True
+    import logging
+    logging.disable(logging.ERROR)   # the library logs a warning per odd input; irrelevant here
     src_dir = os.path.join(REPO, "src")
     if src_dir not in sys.path:
         sys.path.insert(0, src_dir)
